@@ -69,6 +69,8 @@ type Term struct {
 	val  uint64 // const: bit pattern (bool: 0/1; fp: IEEE bits)
 	name string // var: declared name
 	id   int    // unique per termPool
+	fv     []*Term
+	fvDone bool
 }
 
 func (t *Term) IsConst() bool { return t.op == "const" }
